@@ -9,6 +9,7 @@ import (
 	"github.com/internetarchive/Zeno/internal/pkg/log"
 	"github.com/internetarchive/Zeno/internal/pkg/reactor"
 	"github.com/internetarchive/Zeno/internal/pkg/stats"
+	"github.com/internetarchive/Zeno/internal/pkg/verifhook"
 	"github.com/internetarchive/Zeno/pkg/models"
 	"github.com/internetarchive/gocrawlhq"
 )
@@ -81,14 +82,17 @@ func Start(finishChan, produceChan chan *models.Item) error {
 // Stop stops the global HQ and waits for all goroutines to finish. Finisher must be stopped first and Reactor must be frozen before stopping HQ.
 func Stop() {
 	if globalHQ != nil {
+		verifhook.At("hq.stop.enter")
 		globalHQ.cancel()
 		globalHQ.wg.Wait()
+		verifhook.At("hq.stop.reset")
 		seedsToReset := reactor.GetStateTable()
 		for _, seed := range seedsToReset {
 			if err := globalHQ.client.ResetURL(context.TODO(), seed); err != nil {
 				logger.Error("error while reseting", "id", seed, "err", err)
 			}
 			logger.Debug("reset seed", "id", seed)
+			verifhook.Obs("hq.stop.reset.one", seed)
 		}
 		once = sync.Once{}
 		logger.Info("stopped")
